@@ -1,7 +1,8 @@
 import PallasVerif.Stream
 import PallasVerif.Model.Address
 /-! stream `address` (C18). Stateless ops:
-    `mk <shape> <n<id>|o<x>> <h1> [<h2> | <slot> <tx> <cert>]` → `ok <to_vec hex> hdr=<u8> hrp=<hrp|none> rt=<addr>`
+    `mk <shape> <n<id>|o<x>> <h1> [<h2> | <slot> <tx> <cert>]` → `ok <to_vec hex> hdr=<u8> hrp=<hrp|none> rt=<addr> rth=<addr> b32=<text|none>`
+    `fromb32 <text-hex>` (`from_bech32`, with the executable bech32 of the model),
     `parse <hex>` (`from_bytes`), `parsehex <text-hex>` (`from_hex` on arbitrary text),
     `vwrite <n>`, `vread <hex>`, `pparse <hex>`. -/
 namespace PallasVerif.Streams.Address
@@ -85,7 +86,8 @@ def step (_ : Unit) (toks : List String) : Unit × String :=
     | some a =>
       let hrp := match a.hrp with | .ok h => h | .error _ => "none"
       ((), "ok " ++ Tok.hex a.toVec ++ " hdr=" ++ toString a.toHeader.toNat ++ " hrp=" ++ hrp ++
-        " rt=" ++ showRes (fromBytes a.toVec) ++ " rth=" ++ showRes (fromHex a.toHex))
+        " rt=" ++ showRes (fromBytes a.toVec) ++ " rth=" ++ showRes (fromHex a.toHex) ++
+        " b32=" ++ (match a.toBech32 realBech32 with | .ok t => String.ofList t | .error _ => "none"))
   | ["parse", h] =>
     match Tok.unhex h with
     | some bs => ((), showRes (fromBytes bs))
@@ -94,6 +96,11 @@ def step (_ : Unit) (toks : List String) : Unit × String :=
     -- the token is hex of the UTF-8 text handed to `from_hex` (ASCII only in the generator)
     match Tok.unhex h with
     | some bs => ((), showRes (fromHex (bs.map fun b => Char.ofNat b.toNat)))
+    | none => ((), "bad-op")
+  | ["fromb32", h] =>
+    -- the token is hex of the (lower-case ASCII) text handed to `Address::from_bech32`
+    match Tok.unhex h with
+    | some bs => ((), showRes (fromBech32 realBech32 (bs.map fun b => Char.ofNat b.toNat)))
     | none => ((), "bad-op")
   | ["vwrite", n] =>
     match u64? n with
